@@ -13,7 +13,7 @@ RULE = ("random LP-expressible CQMs: 0-14 BINARY/INTEGER/REAL variables with exp
         "offsets, empty objective / empty lhs, constraint labels equal to variable labels; loads(dumps(cqm)) compared: variables, vartypes, "
         "bounds, labels exactly (worker), objective / lhs / sense / rhs coefficient-wise and energies at 2 samples in Coq against the term "
         "model; the recorded sequence of _WidthLimitedFile.write calls is wrapped by the Coq model and compared with the text, tokens of the "
-        "text = tokens of the writes. Magnitude stream (12%): right-hand sides +-1e29..1.8e308 and variable bounds at the vartype limits (+-1e30 REAL, +-(2^53-1) INTEGER) for all senses, sense/rhs/bounds compared exactly, energies not probed. Every round trip also feeds the words of the dumped text, classified into tokens, to the Coq reference parser (parse_tokens + reader conventions) and compares objective, constraints (label, lhs, sense, rhs) and variables (type, clamped bounds) with what the C++ reader built. Label stream (10%): one accepted label - random, or inside the reported defect regions (keywords in any case, inf/nan prefixes, leading ';', free) - as a variable or a constraint label in a small model; whether loads(dumps) gives the model back is compared with the Coq model of the reader's tokenizer built from the keyword/delimiter tables generated from reader.cpp, def.hpp and lp.py (translators/lp_grammar.py). Refusal stream (22%): SPIN variable (used/unused), soft constraint, non-string / empty / 256+ / "
+        "text = tokens of the writes. Magnitude stream (12%): right-hand sides +-1e29..1.8e308 and variable bounds at the vartype limits (+-1e30 REAL, +-(2^53-1) INTEGER) for all senses, sense/rhs/bounds compared exactly, energies not probed. Every round trip also feeds the words of the dumped text, classified into tokens, to the Coq reference parser (parse_tokens + reader conventions) and compares objective, constraints (label, lhs, sense, rhs) and variables (type, clamped bounds) with what the C++ reader built. Label stream (14%): 2-4 binary variables whose adjacent names may form the reader's two-word keywords (subject to / such that, any case), compared with names_section_read; or one accepted label - random, or inside the reported defect regions (keywords in any case, inf/nan prefixes, leading ';', free) - as a variable or a constraint label in a small model; whether loads(dumps) gives the model back is compared with the Coq model of the reader's tokenizer built from the keyword/delimiter tables generated from reader.cpp, def.hpp and lp.py (translators/lp_grammar.py). Refusal stream (22%): SPIN variable (used/unused), soft constraint, non-string / empty / 256+ / "
         "bad-first-character / out-of-alphabet label on a variable or a constraint, plus controls: dump must raise exactly when the model "
         "says so and leave nothing loadable. Labels in the reported defect regions (leading ';', LP keywords, inf/nan prefixes, adjacent "
         "subject/to) are kept out of the random stream. non-trivial = model has a term or a constraint; distinct by case JSON")
